@@ -27,6 +27,11 @@ import SpecKitV.Props.AttrsA
 #print axioms gen_siso_eq_GyyRx
 #print axioms gen_siso_eq_miso_q1
 #print axioms MisoGen.abs_csqrt
+#print axioms MisoGen.NTkey_inj
+#print axioms MisoGen.Skey_inj'
+#print axioms analytic_key_collision
+#print axioms analytic_T_1_11_holds_conjugate
+#print axioms old_numeric_key_collision
 #print axioms Miso.residual_is_norm
 #print axioms Miso.residual_real_nonneg
 #print axioms Miso.normal_eq_minimises
